@@ -33,11 +33,11 @@ echo "demo files: $DEMOS"
 for d in $DEMOS; do mkdir -p "$(dirname "$d")"; cp -r "$SRC/$d" "$d"; done
 PKGS=$(for d in $DEMOS; do echo "./$(dirname "$d")/"; done | sort -u | tr '\n' ' ')
 echo "== demo with change (expect FAIL) in $PKGS"
-ns "go test -vet=off -count=1 -timeout 10m -run '$RX' $PKGS 2>&1" > /tmp/sv/$ID.demo_with.log; WITH=$?
+ns "go test ${DEMO_FLAGS:-} -vet=off -count=1 -timeout 10m -run '$RX' $PKGS 2>&1" > /tmp/sv/$ID.demo_with.log; WITH=$?
 tail -5 /tmp/sv/$ID.demo_with.log
 git apply -R /tmp/sv/$ID.patch
 echo "== demo without change (expect PASS)"
-ns "go test -vet=off -count=1 -timeout 10m -run '$RX' $PKGS 2>&1" > /tmp/sv/$ID.demo_without.log; WITHOUT=$?
+ns "go test ${DEMO_FLAGS:-} -vet=off -count=1 -timeout 10m -run '$RX' $PKGS 2>&1" > /tmp/sv/$ID.demo_without.log; WITHOUT=$?
 tail -3 /tmp/sv/$ID.demo_without.log
 echo "suite=$SUITE with=$WITH without=$WITHOUT"
 if [ $SUITE -eq 0 ] && [ $WITH -ne 0 ] && [ $WITHOUT -eq 0 ]; then
